@@ -31,9 +31,38 @@ class St:
         self.vanished = False
 
 
+OVERLAP_FIRSTS = ['~post_bad', '~post_oversize', '~post_close', '~disconnect']
+
+
+class _SleepyDisconnect:
+    """Application whose disconnect handler takes 0.25 s of virtual time (the overlap pass)."""
+    def connect(self, sid, environ):
+        return []
+
+    def message(self, sid, data):
+        return []
+
+    def disconnect(self, sid, reason):
+        return [('sleep', 0.25)]
+
+
 def apply_action(w, st, a):
     """Returns False when the action is not enabled in this state."""
     sid = st.sids[0] if st.sids else None
+    if a.startswith('~'):
+        # something that ends the session is under way and its disconnect handler is asleep when the probe arrives
+        if sid is None:
+            return False
+        if a == '~post_bad':
+            peer.post(w, sid, '7', run=False)
+        elif a == '~post_oversize':
+            peer.post(w, sid, '4' + 'a' * 4100, run=False)
+        elif a == '~post_close':
+            peer.post(w, sid, '1', run=False)
+        else:
+            w.call('disconnect', sid)
+        w.run()
+        return True
     if a == 'open':
         if len(st.sids) >= 2 or st.vanished:
             return False
@@ -100,8 +129,9 @@ def apply_action(w, st, a):
 
 
 def build(impl, hist):
+    extra = {'behaviour': _SleepyDisconnect()} if any(a.startswith('~') for a in hist) else {}
     w = peer.make_world(impl, server_kwargs=dict(ping_interval=INTERVAL, ping_timeout=TIMEOUT,
-                                                 max_http_buffer_size=4000, compression_threshold=8))
+                                                 max_http_buffer_size=4000, compression_threshold=8), **extra)
     st = St()
     for a in hist:
         if not apply_action(w, st, a):
@@ -317,6 +347,11 @@ def run(ctx):
         for h in hists:
             for i in range(len(PROBES)):
                 jobs.append((impl, h, i))
+        # overlap pass: every probe arrives while the disconnect handler of an ending session is asleep
+        for base_h in (('open',), ('open', 'poll'), UPGRADED):
+            for f in OVERLAP_FIRSTS:
+                for i in range(len(PROBES)):
+                    jobs.append((impl, base_h + (f,), i))
     res = parallel.pmap_chunks(_probe_work, parallel.split(jobs, ctx.workers * 8), ctx.workers, ctx.seed, maxtasks=6)
     n = 0
     nv = 0
@@ -334,7 +369,7 @@ def run(ctx):
         'rule': 'breadth-first search over %r to depth %d (and depth/2 further from the state reached by a completed upgrade) with de-duplication on a canonical digest of sessions, queues, pending '
                 'requests/sockets, events and next timer; in each of the distinct states each of %d probes (%d HTTP requests incl. '
                 'malformed bodies, %d API calls) is issued on a fresh replay and the world run %.0fs of virtual time past it. '
-                'states = distinct digests over both servers; transitions = history steps explored + probe executions.'
+                'An overlap pass issues every probe while the disconnect handler (0.25 s) of a session that is being ended by a bad / oversize / CLOSE POST or by disconnect(sid) is still asleep, from three base states. states = distinct digests over both servers; transitions = history steps explored + probe executions.'
                 % (ACTIONS, depth, len(PROBES), len([p for p in PROBES if p[0] == 'http']), len([p for p in PROBES if p[0] == 'call']), HORIZON),
         'exhaustive': True, 'bound_completed': depth, 'max_depth_reached': maxd, 'states_per_impl': per_impl,
         'violating_cases_total': nv,
